@@ -37,7 +37,7 @@ ENTRY = {
         "design_ref": "DESIGN.md §6 C07",
         "level_note": "Trusted: Lean kernel; axioms propext/Classical.choice/Quot.sound; hand-written models of scan.rs / limit.rs / union.rs / plan.rs / the hash_join.rs tracker "
                       "(validated by correspondence only); sequential consistency per atomic location; sqlgen + Spec.sameAnswer; the harness. "
-                      "Known finding C07-F1 (callers that execute partition 0 only) is listed, with a proposed fix.",
+                      "Findings C07-F1 (callers that executed partition 0 only, b96001d) and C07-F2 (= C21-F8, 16c594a) were repaired in /repo; their witnesses are replayed first on every run.",
         "technique": "Lean 4 proof (induction over layouts and over a small-step interleaving semantics) + differential correspondence and metamorphic configuration-invariance runs on the Rust engine",
     },
 }
